@@ -95,6 +95,8 @@ func C06(p *load.Prog, r *oblig.Run) {
 	r.Rule("R06.d", "each of the 13 non-invalid constants satisfies exactly one of IsEqual/IsPartiallyEqual/IsNotEqual; Invalid none", 14)
 	r.Rule("R06.e", "incorrectEventOrderWarnings compares the result of Compare with the EntirelyBefore constant", 1)
 	r.Rule("R06.f", "the result is a relation the documentation diagram allows for that ordering of endpoints", 26)
+	r.Rule("R06.g", "NewDateRange normalises its ends: the start is marked not-end-of-range and the end end-of-range whatever the caller passed (the model's assumption about range ends)", 2)
+	c06Normalise(p, r)
 
 	pk := p.ByPath[load.PkgRoot]
 	// constants by exported API name
@@ -436,4 +438,60 @@ func max64(a, b int64) int64 {
 		return a
 	}
 	return b
+}
+
+// c06Normalise abstractly evaluates NewDateRange on two dates whose
+// IsEndOfRange flags are the wrong way round and requires the result to have
+// them the right way round.
+func c06Normalise(p *load.Prog, r *oblig.Run) {
+	nd := p.Func(load.PkgRoot, "NewDateRange")
+	dateObj := p.ByPath[load.PkgRoot].Types.Scope().Lookup("Date")
+	if nd == nil || dateObj == nil {
+		r.Add("R06.g", "NewDateRange", "-", "anchor").Unknown("NewDateRange / Date not found")
+		return
+	}
+	ds, _ := dateObj.Type().Underlying().(*types.Struct)
+	flag := -1
+	for i := 0; ds != nil && i < ds.NumFields(); i++ {
+		if ds.Field(i).Name() == "IsEndOfRange" {
+			flag = i
+		}
+	}
+	if flag < 0 {
+		r.Add("R06.g", "NewDateRange", p.Pos(nd.Pos()), "anchor").Unknown("Date has no IsEndOfRange field")
+		return
+	}
+	mk := func(v bool) *absint.Struct {
+		s := &absint.Struct{F: make([]absint.Value, ds.NumFields())}
+		for i := range s.F {
+			s.F[i] = absint.Unknown{Why: "field outside the model"}
+		}
+		s.F[flag] = v
+		return s
+	}
+	m := &absint.Machine{}
+	res, err := m.Call(nd, []absint.Value{mk(true), mk(false)})
+	rs, ok := res.(*absint.Struct)
+	if err != nil || !ok {
+		r.Add("R06.g", "NewDateRange", p.Pos(nd.Pos()), "normalisation of the range ends").Unknown(fmt.Sprintf("cannot evaluate NewDateRange abstractly: %v", err))
+		return
+	}
+	want := []bool{false, true}
+	names := []string{"start", "end"}
+	n := 0
+	for i, f := range rs.F {
+		d, ok := f.(*absint.Struct)
+		if !ok || n >= 2 {
+			continue
+		}
+		got, isB := d.F[flag].(bool)
+		r.Check("R06.g", names[n]+" flag", p.Pos(nd.Pos()), "IsEndOfRange of the range's "+names[n], isB && got == want[n],
+			fmt.Sprintf("forced to %v", want[n]),
+			fmt.Sprintf("NewDateRange leaves the %s date's IsEndOfRange as the caller passed it: a range built from plain Date values with month or year granularity then ends (or starts) on the wrong day of its period, and compares wrongly", names[n]))
+		n++
+		_ = i
+	}
+	if n != 2 {
+		r.Add("R06.g", "NewDateRange", p.Pos(nd.Pos()), "normalisation").Unknown("result of NewDateRange does not hold two dates")
+	}
 }
